@@ -91,6 +91,25 @@ Record Inv (p : Position) : Prop := {
   iv_safe : in_check_them p = false
 }.
 
+(* the same without the stored key (what the move itself needs; the quiescence search makes moves without updating the key) *)
+Record Inv0 (p : Position) : Prop := {
+  i0_good : Good p;
+  i0_cg : CastleGood p;
+  i0_tking : popcount (N.land (kings p) (c_them p)) = 1;
+  i0_tk : them_ksc p = true -> holds p (sq_of (cf2 p) 7) true ROOK /\ 56 <= tksq p < sq_of (cf2 p) 7;
+  i0_tq : them_qsc p = true -> holds p (sq_of (cf3 p) 7) true ROOK /\ sq_of (cf3 p) 7 < tksq p;
+  i0_safe : in_check_them p = false
+}.
+Lemma Inv_Inv0 p : Inv p -> Inv0 p.
+Proof. intros I. constructor; [exact (iv_good p I)|exact (iv_cg p I)|exact (iv_tking p I)|exact (iv_tk p I)|exact (iv_tq p I)|exact (iv_safe p I)]. Qed.
+Lemma Inv0_Inv p : Inv0 p -> hash p = calculate_hash p -> Inv p.
+Proof.
+  intros I H. constructor; [exact (i0_good p I)|exact (i0_cg p I)| |exact (i0_tking p I)|exact (i0_tk p I)|exact (i0_tq p I)|exact (i0_safe p I)].
+  constructor; [| |exact H].
+  - intros F. destruct (i0_tk p I F) as ((_ & _ & Ht & _) & _). exact Ht.
+  - intros F. destruct (i0_tq p I F) as ((_ & _ & Ht & _) & _). exact Ht.
+Qed.
+
 Lemma R_cf u p m : let R := makemove u p m in cf0 R = cf2 p /\ cf1 R = cf3 p /\ cf2 R = cf0 p /\ cf3 R = cf1 p.
 Proof.
   cbv zeta. rewrite R_eq. cbn [flip cf0 cf1 cf2 cf3 set_clocks_ep_rights].
@@ -141,12 +160,12 @@ Qed.
 Section NC.
 Variables (u : bool) (p : Position) (m : Mv) (k : N).
 Hypothesis S : sane p m k.
-Hypothesis I : Inv p.
+Hypothesis I : Inv0 p.
 Hypothesis NVK : m_to m <> tksq p.
 Let R := makemove u p m.
 Let from := m_from m.
 Let to := m_to m.
-Let G := iv_good p I.
+Let G := i0_good p I.
 
 Lemma nc_from_lt : from < 64. Proof. exact (sn_from _ _ _ S). Qed.
 Lemma nc_to_lt : to < 64. Proof. exact (sn_to _ _ _ S). Qed.
@@ -183,7 +202,7 @@ Lemma flip_flip_lt i : i < 64 -> flip_sq i < 64. Proof. apply flip_sq_lt. Qed.
 (* their king stays where it is *)
 Lemma nc_their_king : popcount (N.land (kings R) (c_us R)) = 1 /\ uksq R = flip_sq (tksq p).
 Proof.
-  destruct (their_king_holds p (g_wf p G) (g_bb p G) (iv_tking p I)) as (HK & HK64).
+  destruct (their_king_holds p (g_wf p G) (g_bb p G) (i0_tking p I)) as (HK & HK64).
   apply (king_by_view R (flip_sq (tksq p)) true (BB8_R u p m) (flip_sq_lt _ HK64)).
   intros i Hi. set (a := flip_sq i). assert (Ha : a < 64) by (apply flip_sq_lt; exact Hi).
   assert (Ei : i = flip_sq a) by (unfold a; rewrite flip_sq_invol; reflexivity).
@@ -201,7 +220,7 @@ Proof.
   - destruct He as (_ & _ & Hp). rewrite (Hp 5 ltac:(lia)). cbn [andb]. symmetry. apply N.eqb_neq. intros E'.
     rewrite E' in Hpe. exact (holds_not_empty _ _ _ _ HK Hpe).
   - destruct Hr as (Hj & Hu & _ & Hp). rewrite Hu, (Hp 5 ltac:(lia)).
-    pose proof (view_of_king p false (g_bb p G) (iv_tking p I) a) as Hv. cbv iota in Hv. fold (tksq p) in Hv. rewrite <- Hv.
+    pose proof (view_of_king p false (g_bb p G) (i0_tking p I) a) as Hv. cbv iota in Hv. fold (tksq p) in Hv. rewrite <- Hv.
     destruct Hh as (_ & _ & Ht & Hp'). rewrite Ht, (Hp' 5 ltac:(lia)). destruct t; cbn [negb]; [reflexivity|rewrite !andb_false_r; reflexivity].
 Qed.
 
@@ -280,7 +299,6 @@ Qed.
 
 Hypothesis Hpw : k = PAWN -> rank_of to = rank_of from + 1 \/ to = from + 16.
 Hypothesis Hskip : k = PAWN -> to = from + 16 -> empty_at p (from + 8) /\ m_promo m = NOPIECE.
-Hypothesis Hhash : hash R = calculate_hash R.
 Hypothesis Hlegal : in_check_them R = false.
 
 Lemma nc_not_ep_double : to = from + 16 -> mv_is_ep p m = false.
@@ -327,39 +345,21 @@ Proof.
   destruct nc_their_king as (_ & EK). unfold uksq in EK.
   constructor.
   - intros H. rewrite Ek in H. destruct (keeps_right_true _ _ _ _ _ H) as (Hflag & _ & _ & Hto).
-    destruct (iv_tk p I Hflag) as (Hrook & Hlo & Hhi). rewrite C0, EK. destruct (flip_home (cf2 p) D2) as (F7 & F0).
+    destruct (i0_tk p I Hflag) as (Hrook & Hlo & Hhi). rewrite C0, EK. destruct (flip_home (cf2 p) D2) as (F7 & F0).
     split.
     + rewrite <- F7. apply their_man_stays; [unfold sq_of; lia|exact Hrook|intros E; apply Hto; symmetry; exact E|].
       intros Hb E. destruct (nc_vic Hb) as (Hv & _). fold to in Hto. rewrite <- E in Hv. destruct (holds_excl _ _ _ _ _ _ Hrook Hv) as (_ & X). discriminate X.
     + rewrite flip_high by (unfold sq_of in *; lia). unfold sq_of in *. lia.
   - intros H. rewrite Eq in H. destruct (keeps_right_true _ _ _ _ _ H) as (Hflag & _ & _ & Hto).
-    destruct (iv_tq p I Hflag) as (Hrook & Hlo). rewrite C1, EK. destruct (flip_home (cf3 p) D3) as (F7 & F0).
-    destruct (their_king_holds p (g_wf p G) (g_bb p G) (iv_tking p I)) as (_ & HK64).
+    destruct (i0_tq p I Hflag) as (Hrook & Hlo). rewrite C1, EK. destruct (flip_home (cf3 p) D3) as (F7 & F0).
+    destruct (their_king_holds p (g_wf p G) (g_bb p G) (i0_tking p I)) as (_ & HK64).
     split.
     + rewrite <- F7. apply their_man_stays; [unfold sq_of; lia|exact Hrook|intros E; apply Hto; symmetry; exact E|].
       intros Hb E. destruct (nc_vic Hb) as (Hv & _). rewrite <- E in Hv. destruct (holds_excl _ _ _ _ _ _ Hrook Hv) as (_ & X). discriminate X.
     + rewrite flip_high by (unfold sq_of in *; lia). unfold sq_of in *. lia.
 Qed.
 
-Lemma nc_keygood : KeyGood R.
-Proof.
-  destruct (R_cf u p m) as (C0 & C1 & C2 & C3). destruct (g_cf p G) as (D0 & D1 & D2 & D3). fold R in C0, C1, C2, C3.
-  destruct (R_fields u p m) as (_ & _ & _ & _ & Ek & Eq). fold R in Ek, Eq. rewrite our_ksq_comm in Ek, Eq.
-  constructor.
-  - intros H. rewrite Ek in H. destruct (keeps_right_true _ _ _ _ _ H) as (Hflag & _ & Hfr & _).
-    destruct (cg_k p (iv_cg p I) Hflag) as (Hrook & _). rewrite C2. destruct (flip_home (cf0 p) D0) as (F7 & F0).
-    rewrite <- F0. assert (Hh : holds R (flip_sq (sq_of (cf0 p) 0)) true ROOK).
-    { apply our_man_stays; [unfold sq_of; lia|exact Hrook|intros E; apply Hfr; symmetry; exact E]. }
-    destruct Hh as (_ & _ & Ht & _). exact Ht.
-  - intros H. rewrite Eq in H. destruct (keeps_right_true _ _ _ _ _ H) as (Hflag & _ & Hfr & _).
-    destruct (cg_q p (iv_cg p I) Hflag) as (Hrook & _). rewrite C3. destruct (flip_home (cf1 p) D1) as (F7 & F0).
-    rewrite <- F0. assert (Hh : holds R (flip_sq (sq_of (cf1 p) 0)) true ROOK).
-    { apply our_man_stays; [unfold sq_of; lia|exact Hrook|intros E; apply Hfr; symmetry; exact E]. }
-    destruct Hh as (_ & _ & Ht & _). exact Ht.
-  - exact Hhash.
-Qed.
-
-Theorem nc_inv : Inv R.
+Theorem nc_inv0 : Inv0 R.
 Proof.
   destruct (R_cf u p m) as (C0 & C1 & C2 & C3). destruct (g_cf p G) as (D0 & D1 & D2 & D3). fold R in C0, C1, C2, C3.
   destruct (R_fields u p m) as (_ & _ & _ & _ & Ek & Eq). fold R in Ek, Eq. rewrite our_ksq_comm in Ek, Eq.
@@ -367,16 +367,15 @@ Proof.
   constructor.
   - exact nc_good.
   - exact nc_castlegood.
-  - exact nc_keygood.
   - exact HK1.
   - intros H. rewrite Ek in H. destruct (keeps_right_true _ _ _ _ _ H) as (Hflag & Hfk & Hfr & _).
-    destruct (cg_k p (iv_cg p I) Hflag) as (Hrook & Hlt). fold (uksq p) in Hlt. rewrite C2, EK. destruct (flip_home (cf0 p) D0) as (F7 & F0).
+    destruct (cg_k p (i0_cg p I) Hflag) as (Hrook & Hlt). fold (uksq p) in Hlt. rewrite C2, EK. destruct (flip_home (cf0 p) D0) as (F7 & F0).
     assert (Hnk : (k =? KING) = false) by (rewrite <- nc_from_king; apply N.eqb_neq; exact Hfk).
     unfold our_king_after. rewrite Hnk. split.
     + rewrite <- F0. apply our_man_stays; [unfold sq_of; lia|exact Hrook|intros E; apply Hfr; symmetry; exact E].
     + rewrite flip_low by (unfold sq_of in *; lia). unfold sq_of in *. lia.
   - intros H. rewrite Eq in H. destruct (keeps_right_true _ _ _ _ _ H) as (Hflag & Hfk & Hfr & _).
-    destruct (cg_q p (iv_cg p I) Hflag) as (Hrook & Hlt & H8). fold (uksq p) in Hlt, H8. rewrite C3, EK. destruct (flip_home (cf1 p) D1) as (F7 & F0).
+    destruct (cg_q p (i0_cg p I) Hflag) as (Hrook & Hlt & H8). fold (uksq p) in Hlt, H8. rewrite C3, EK. destruct (flip_home (cf1 p) D1) as (F7 & F0).
     assert (Hnk : (k =? KING) = false) by (rewrite <- nc_from_king; apply N.eqb_neq; exact Hfk).
     unfold our_king_after. rewrite Hnk. split.
     + rewrite <- F0. apply our_man_stays; [unfold sq_of; lia|exact Hrook|intros E; apply Hfr; symmetry; exact E].
@@ -389,13 +388,13 @@ End NC.
 Section CA.
 Variables (u : bool) (p : Position) (m : Mv) (kside : bool).
 Hypothesis S : csane p m kside.
-Hypothesis I : Inv p.
+Hypothesis I : Inv0 p.
 Let R := makemove u p m.
 Let from := m_from m.
 Let to := m_to m.
 Let kt := c_kt kside.
 Let rt := c_rt kside.
-Let G := iv_good p I.
+Let G := i0_good p I.
 
 Lemma ca_from_lt : from < 64. Proof. exact (cs_from64 p m kside S). Qed.
 Lemma ca_to_lt : to < 64. Proof. exact (cs_to64 p m kside S). Qed.
@@ -440,7 +439,7 @@ Qed.
 
 Lemma ca_their_king : popcount (N.land (kings R) (c_us R)) = 1 /\ uksq R = flip_sq (tksq p).
 Proof.
-  destruct (their_king_holds p (g_wf p G) (g_bb p G) (iv_tking p I)) as (HK & HK64).
+  destruct (their_king_holds p (g_wf p G) (g_bb p G) (i0_tking p I)) as (HK & HK64).
   apply (king_by_view R (flip_sq (tksq p)) true (BB8_R u p m) (flip_sq_lt _ HK64)).
   intros i Hi. set (a := flip_sq i). assert (Ha : a < 64) by (apply flip_sq_lt; exact Hi).
   assert (Ei : i = flip_sq a) by (unfold a; rewrite flip_sq_invol; reflexivity).
@@ -461,7 +460,7 @@ Proof.
   - destruct He as (_ & _ & Hp). rewrite (Hp 5 ltac:(lia)). cbn [andb]. symmetry. apply N.eqb_neq. intros E'.
     rewrite E' in Hpe. exact (holds_not_empty _ _ _ _ HK Hpe).
   - destruct Hr as (Hj & Hu & _ & Hp). rewrite Hu, (Hp 5 ltac:(lia)).
-    pose proof (view_of_king p false (g_bb p G) (iv_tking p I) a) as Hv. cbv iota in Hv. fold (tksq p) in Hv. rewrite <- Hv.
+    pose proof (view_of_king p false (g_bb p G) (i0_tking p I) a) as Hv. cbv iota in Hv. fold (tksq p) in Hv. rewrite <- Hv.
     destruct Hh as (_ & _ & Ht & Hp'). rewrite Ht, (Hp' 5 ltac:(lia)). destruct t; cbn [negb]; [reflexivity|rewrite !andb_false_r; reflexivity].
 Qed.
 
@@ -497,7 +496,6 @@ Proof.
   apply (castle_other u p m kside S); fold kt rt; lia.
 Qed.
 
-Hypothesis Hhash : hash R = calculate_hash R.
 Hypothesis Hlegal : in_check_them R = false.
 
 Lemma ca_good : Good R.
@@ -515,10 +513,12 @@ Qed.
 Lemma ca_rights_kept flag cf : keeps_right flag from to (lsb (N.land (c_them p) (kings p))) (sq_of cf 7) = flag.
 Proof.
   assert (Hku : popcount (N.land (c_us p) (kings p)) = 1) by (rewrite king_comm; exact (g_king p G)).
-  apply (c_keeps_them p m kside S Hku).
-  - intros H. destruct (cg_k p (iv_cg p I) H) as (_ & Hlt). fold (uksq p) in Hlt. rewrite <- ca_from_uksq in Hlt. exact Hlt.
-  - intros H. destruct (cg_q p (iv_cg p I) H) as (_ & Hlt & _). fold (uksq p) in Hlt. rewrite <- ca_from_uksq in Hlt. exact Hlt.
-  - exact (kg_hash p (iv_kg p I)).
+  unfold keeps_right, from, to.
+  rewrite (from_not_their_king0 p m KING (cs_from64 p m kside S) (cs_to64 p m kside S) (cs_king _ _ _ S) Hku).
+  pose proof (cs_from _ _ _ S). pose proof (cs_to _ _ _ S).
+  replace (m_from m =? sq_of cf 7) with false by (symmetry; apply N.eqb_neq; unfold sq_of; lia).
+  replace (m_to m =? sq_of cf 7) with false by (symmetry; apply N.eqb_neq; unfold sq_of; lia).
+  cbn [negb]. rewrite !andb_true_r. reflexivity.
 Qed.
 
 Lemma ca_castlegood : CastleGood R.
@@ -527,12 +527,12 @@ Proof.
   destruct (R_fields u p m) as (_ & _ & Ek & Eq & _ & _). fold R from to in Ek, Eq. rewrite ca_rights_kept in Ek, Eq.
   destruct ca_their_king as (_ & EK). unfold uksq in EK.
   constructor.
-  - intros H. rewrite Ek in H. destruct (iv_tk p I H) as (Hrook & Hlo & Hhi). rewrite C0, EK. destruct (flip_home (cf2 p) D2) as (F7 & F0).
+  - intros H. rewrite Ek in H. destruct (i0_tk p I H) as (Hrook & Hlo & Hhi). rewrite C0, EK. destruct (flip_home (cf2 p) D2) as (F7 & F0).
     split.
     + rewrite <- F7. apply ca_their_man_stays; [unfold sq_of; lia|unfold sq_of; lia|exact Hrook].
     + rewrite flip_high by (unfold sq_of in *; lia). unfold sq_of in *. lia.
-  - intros H. rewrite Eq in H. destruct (iv_tq p I H) as (Hrook & Hlo). rewrite C1, EK. destruct (flip_home (cf3 p) D3) as (F7 & F0).
-    destruct (their_king_holds p (g_wf p G) (g_bb p G) (iv_tking p I)) as (_ & HK64).
+  - intros H. rewrite Eq in H. destruct (i0_tq p I H) as (Hrook & Hlo). rewrite C1, EK. destruct (flip_home (cf3 p) D3) as (F7 & F0).
+    destruct (their_king_holds p (g_wf p G) (g_bb p G) (i0_tking p I)) as (_ & HK64).
     split.
     + rewrite <- F7. apply ca_their_man_stays; [unfold sq_of; lia|unfold sq_of; lia|exact Hrook].
     + rewrite flip_high by (unfold sq_of in *; lia). unfold sq_of in *. lia.
@@ -545,13 +545,12 @@ Proof.
   rewrite (c_keeps_us p m kside S Hku) in Ek, Eq. split; assumption.
 Qed.
 
-Theorem ca_inv : Inv R.
+Theorem ca_inv0 : Inv0 R.
 Proof.
   destruct ca_rights_lost as (L1 & L2). destruct ca_our_king as (HK1 & _).
   constructor.
   - exact ca_good.
   - exact ca_castlegood.
-  - constructor; [rewrite L1; discriminate|rewrite L2; discriminate|exact Hhash].
   - exact HK1.
   - rewrite L1. discriminate.
   - rewrite L2. discriminate.
@@ -595,20 +594,24 @@ Proof.
 Qed.
 
 (* ------------------------------------------------------------------ the step *)
-Theorem inv_step p m : Inv p -> In m (legal_moves p) -> in_check_them (makemove true p m) = false -> Inv (makemove true p m).
+Theorem inv0_step u p m : Inv0 p -> In m (legal_moves p) -> in_check_them (makemove u p m) = false -> Inv0 (makemove u p m).
 Proof.
-  intros I Hm Hlegal. pose proof (iv_good p I) as G. pose proof (iv_cg p I) as CG.
-  pose proof (legal_moves_keep_key_invariant p m G CG (iv_kg p I) Hm) as Hhash.
+  intros I Hm Hlegal. pose proof (i0_good p I) as G. pose proof (i0_cg p I) as CG.
   unfold legal_moves in Hm. apply in_map_iff in Hm. destruct Hm as (g & <- & Hg).
   destruct (generated_move_cases p g G Hg) as [(S & Hpw)|[H|H]].
-  - apply (nc_inv true p (gen_mv g) (gk g) S I).
-    + exact (no_king_capture p g G CG (iv_tking p I) (iv_safe p I) Hg).
+  - apply (nc_inv0 u p (gen_mv g) (gk g) S I).
+    + exact (no_king_capture p g G CG (i0_tking p I) (i0_safe p I) Hg).
     + exact Hpw.
     + exact (double_push_facts p g G CG Hg).
-    + exact Hhash.
     + exact Hlegal.
-  - destruct (castle_block_k p G CG g H) as (S & _). exact (ca_inv true p (gen_mv g) true S I Hhash Hlegal).
-  - destruct (castle_block_q p G CG g H) as (S & _). exact (ca_inv true p (gen_mv g) false S I Hhash Hlegal).
+  - destruct (castle_block_k p G CG g H) as (S & _). exact (ca_inv0 u p (gen_mv g) true S I Hlegal).
+  - destruct (castle_block_q p G CG g H) as (S & _). exact (ca_inv0 u p (gen_mv g) false S I Hlegal).
+Qed.
+
+Theorem inv_step p m : Inv p -> In m (legal_moves p) -> in_check_them (makemove true p m) = false -> Inv (makemove true p m).
+Proof.
+  intros I Hm Hlegal. apply Inv0_Inv; [exact (inv0_step true p m (Inv_Inv0 p I) Hm Hlegal)|].
+  exact (legal_moves_keep_key_invariant p m (iv_good p I) (iv_cg p I) (iv_kg p I) Hm).
 Qed.
 
 (* ------------------------------------------------------------------ the executable invariant *)
